@@ -1,5 +1,5 @@
 (* allow-axioms:  *)
-From RRE Require Import Base.Sx Model.Module Proofs.ModuleProofs.
+From RRE Require Import Base.Sx Model.Module Proofs.ModuleProofs Proofs.ModuleAcyclicProofs.
 Open Scope N_scope.
 From RRE Require Import Properties.C18.
 Check (C18_refused_noop : forall g o g', step g o = (g', false) -> g' = g).
@@ -9,3 +9,15 @@ Check (C18_visibility_total : forall ops r to,
   exists_mod (mods (exec init ops)) to = true -> is_rule_visible (exec init ops) r to <> 2).
 Check (C18_visible_iff_declared : forall ops r to,
   is_rule_visible (exec init ops) r to = spec_visible (mods (exec init ops)) r to).
+Check (C18_imports_stay_acyclic : forall ops a, ~ path (dedge (mods (exec init ops))) a a).
+Check (C18_graph_is_declarations : forall ops a b,
+  In b (graph_of (graph (exec init ops)) a) <-> dedge (mods (exec init ops)) a b).
+Check (C18_import_refused_only_for_cause : forall ops to from t pat re,
+  snd (step (exec init ops) (Import to from t pat re)) = false ->
+  find_mod (mods (exec init ops)) from = None \/ find_mod (mods (exec init ops)) to = None
+  \/ to = from \/ path (dedge (mods (exec init ops))) from to).
+Check (C18_import_closing_a_cycle_refused : forall ops to from t pat re,
+  to = from \/ path (dedge (mods (exec init ops))) from to ->
+  snd (step (exec init ops) (Import to from t pat re)) = false).
+Check (C18_detect_cycle_is_reachability : forall g to from,
+  detect_cycle g to from = true <-> to <> from /\ ~ path (fun a b => In b (graph_of (graph g) a)) from to).
